@@ -128,6 +128,10 @@ func mapTemplates() []string {
 		"{% for k in m|keys %}{{ k }}={{ m[k] }};{% endfor %}",
 		"{% set x = m %}{% for k, v in x %}{{ k }}{% endfor %}|{% for k, v in x %}{{ v }}{% endfor %}",
 		"{% for k, v in m %}{% for k2, v2 in m2 %}{{ k }}{{ k2 }} {% endfor %}{% endfor %}",
+		"{% include 'part' with {'a': b, 'b': a} %}",
+		"{% include 'part' with {'a': b, 'b': c, 'c': a} %}",
+		"{% include 'part' with {'a': b ~ '!', 'b': a ~ '?', 'k1': a} only %}",
+		"{% for a in [1, 2] %}{% include 'part' with {'b': a, 'a': b} %}{% endfor %}",
 		"{% include 'part' with m %}",
 		"{% include 'part' with m only %}",
 		"{{ dump(m) }}",
@@ -217,7 +221,16 @@ func allCases(thorough bool) []tcase {
 			if strings.Contains(tp, "include") && (n != "untyped3" && n != "untyped4" && n != "untyped2") {
 				continue
 			}
-			cs = append(cs, tcase{Group: "map/" + n, Tpl: tp, Extra: extra, Ctx: n, mk: mk[n]})
+			mkn := mk[n]
+			cs = append(cs, tcase{Group: "map/" + n, Tpl: tp, Extra: extra, Ctx: n, mk: func() map[string]interface{} {
+				c := mkn()
+				for k, v := range map[string]interface{}{"a": "A", "b": "B", "c": "C"} {
+					if _, ok := c[k]; !ok {
+						c[k] = v
+					}
+				}
+				return c
+			}})
 		}
 	}
 	for _, n := range []string{"untyped3", "untyped4", "typedStrInt"} {
